@@ -50,6 +50,7 @@ STUBS = {
     'reserve': ('bytes::bytes_mut::BytesMut::reserve_inner', 'crate::common::stubs::reserve_inner_stub'),
     'canon': ('ipp::util::canonicalize_uri', 'crate::common::stubs::canon_id'),
     'block_on': ('futures_executor::local_pool::block_on', 'crate::common::stubs::block_on_stub'),
+    'fmt': ('alloc::fmt::format', 'crate::common::stubs::fmt_stub'),
 }
 STUB_TEXT = {
     'lossy': 'String::from_utf8_lossy -> model: identity on ASCII, arbitrary <=3-char ASCII string otherwise',
@@ -61,10 +62,11 @@ STUB_TEXT = {
     'bm': 'bytes::BytesMut::new -> BytesMut::with_capacity(256) (no growth path)',
     'block_on': 'futures_executor::block_on -> poll loop with a no-op waker (Kani cannot compile the thread-parking executor)',
     'reserve': 'bytes::BytesMut::reserve_inner -> assert(false); assume(false): growth beyond the pre-sized 256-byte buffer is outside the model and would be reported',
+    'fmt': 'alloc::fmt::format -> empty string (message texts of errors are not part of the property; formatting an io::Error explodes)',
     'canon': 'ipp::util::canonicalize_uri -> identity (harness passes an already canonical ipp:// URI; C13 owns the canonicaliser)',
 }
-DEFAULT_STUBS = ['lossy', 'drop_even', 'drop_odd', 'bm', 'block_on', 'reserve']
-ASCII_STUBS = ['lossy_ascii', 'drop_even', 'drop_odd', 'bm', 'block_on', 'reserve']
+DEFAULT_STUBS = ['lossy', 'drop_even', 'drop_odd', 'bm', 'block_on', 'reserve', 'fmt']
+ASCII_STUBS = ['lossy_ascii', 'drop_even', 'drop_odd', 'bm', 'block_on', 'reserve', 'fmt']
 # initial per-loop bounds by pretty function name (regex); everything else starts at the harness's
 # default unwind (small, also the recursion bound) and is raised on demand by auto-deepening
 DEFAULT_BOUNDS = {
